@@ -12,7 +12,8 @@ One `Op` per atomic action of the real code, so that "for every schedule" is
 * `respRaw w k` – the same for a server *outside* the contract (any `k`); it is what the code does
                (`r.start += len(resp.Entries)`), and is used only to document the domain boundary,
 * `err w`    – the request failed (429 / 5xx / network); the worker asks again,
-* `grow n`   – continuous mode: `updateSTH` accepted an STH of size `n` (only when the generator is at the end),
+* `grow n`   – continuous mode: `updateSTH` accepted an STH of size `n` (only when the generator has nothing left to
+               hand out: the cursor is at — or, for a start index beyond the tree, past — the end),
 * `stop`     – `Fetcher.Stop()`; `cancel` – the caller's context is cancelled,
 * `close`    – the generator goroutine exits (`close(ranges)`),
 * `take m j` / `proc m` – matcher worker `m` receives a queued entry / runs `processEntry` on it. The queue is a *bag*:
@@ -82,7 +83,7 @@ def closeEnabled (s : St) : Bool :=
   !s.closed && (s.stopReq || (!s.continuous && !decide (s.cursor < s.end_)))
 
 def growEnabled (s : St) (n : Nat) : Bool :=
-  !s.closed && s.continuous && decide (s.cursor = s.end_) && decide (s.end_ < n)
+  !s.closed && s.continuous && decide (s.end_ ≤ s.cursor) && decide (s.end_ < n)
 
 def deliver (e : Env) (s : St) (w lo hi k : Nat) : St :=
   let b := batchOf e.src lo k
